@@ -61,6 +61,11 @@ T2BodiesQ == { Plain(<<ParC(<<Txt(<<"SP">>), ParD(<<"k">>, <<Txt(<<"1">>)>>)>>, 
 \* SP: a template that expands to padded text (the interaction case of the statement)
 SpBody == Plain(<<Txt(<<"SP", "v", "SP">>)>>)
 
+\* libraries with the redirect pages installed (marker RDR): calls through redirects and aliases
+LibsR == { ("T1" :> b1) @@ ("T2" :> Plain(<<Txt(<<"<">>), Call("r1", <<Pos(<<Par(<<"1">>)>>)>>), Call("R2", <<>>), Txt(<<">">>)>>))
+           @@ ("SP" :> SpBody) @@ ("RDR" :> Plain(<<>>)) : b1 \in T1BodiesQ }
+NamePages == { <<Call(n, <<Pos(<<Txt(<<"a">>)>>), Named(<<"x">>, <<Call("SP", <<>>)>>)>>)>> :
+                 n \in {"T1", "Template:T1", "t1", "template:T1", "T:T1", "R1", "r1", "R2", "T2", "t2", "Template:T2", "NOPE"} }
 Libs == { ("T1" :> b1) @@ ("T2" :> b2) @@ ("SP" :> SpBody) :
             b1 \in (IF Universe = "Q" THEN T1BodiesQ ELSE T1Bodies),
             b2 \in (IF Universe = "Q" THEN T2BodiesQ ELSE T2Bodies) }
@@ -95,7 +100,8 @@ Pages == CallPages \cup CtlPages
 
 (* ---------------- generator ---------------- *)
 VARIABLES lib, page
-Init == lib \in Libs /\ page \in Pages
+Init == \/ (lib \in Libs /\ page \in Pages)
+        \/ (lib \in LibsR \cup Libs /\ page \in NamePages)
 Next == UNCHANGED <<lib, page>>
 Spec == Init /\ [][Next]_<<lib, page>>
 
